@@ -18,7 +18,9 @@ CLAIMS = {
     'C02': ("Lean proof that valid_pixels / n_valid / coverage_map / valid_pixels_single_covpix / fracdet agree with the "
             "dense valid set for every layout-invariant state and that the n_valid cache is coherent; GLOBAL: along every "
             "protocol history over the whole API model the cached count is never stale and n_valid answers the number of "
-            "valid cells (reachable_cache_fresh, reachable_nvalid, by induction over all ~50 operations); correspondence "
+            "valid cells (reachable_cache_fresh, reachable_nvalid, by induction over all ~50 operations), and every "
+            "accounting observer of the protocol (valid, nvalid, covmap, covmask, vpsc, fracdet) answers a function of ONE "
+            "dense valid set (reachable_observers_agree); correspondence "
             "with query-mutate-query histories over eleven observers", NOTE, TECH, "6 C02 / AB.9"),
     'C04': ("Lean proof that make_empty / growth / update / ranges / scalar and boolean operators / conversions preserve "
             "the published layout invariant (Inv), with a verified executable checker (checkInv_iff) run on the REAL "
@@ -102,21 +104,33 @@ CLAIMS = {
     'C14': ("Lean proof over abstract record cells with a field lens: primary-based validity, whole-record read-back, "
             "field copy = values at the parent's valid pixels, field view reads, writes through a view change exactly "
             "that field of the addressed pixels, the view guard rejects new pixels (7 theorems); correspondence with "
-            "freshly taken views", NOTE + "views kept across parent growth dangle (memory safety, outside the model).",
-            TECH, "6 C14"),
+            "freshly taken views; API / DRIVER LEVEL (17 theorems): record validity and whole-record writes, single-field "
+            "copies (exact collision rule), views at the driver (exactly when refused, what they show), writes through a "
+            "view change exactly one field of exactly the addressed pixels or nothing, no staleness", NOTE +
+            "views kept across parent growth dangle (memory safety, outside the model).", TECH, "6 C14 / AB.9"),
     'C15': ("Lean proof that upgrade replicates values to children with the same coverage, degrade(upgrade) restores "
             "the map for reductions that are the identity on constant groups, and fracdet = valid-children count at "
             "every permitted resolution incl. the coverage map (upgrade_spec, degrade_upgrade_id, fracdet_eq, "
-            "fracdet_cov_eq_coverage_map)", NOTE, TECH, "6 C15"),
+            "fracdet_cov_eq_coverage_map); API LEVEL (79 theorems): apiUpgrade for every sentinel (values and validity "
+            "replicated to exactly the children, exact errors), degrade after upgrade per reduction, fracdet = exact "
+            "dyadic count of valid children at every order, additivity, consistency with degrade", NOTE, TECH,
+            "6 C15 / AB.9"),
     'C16': ("Lean proof of the structural part: dense array -> map -> dense array round trip, RING export/import "
             "through any pair of mutually inverse permutations, the interpolation validity rule (6 theorems); "
             "correspondence with hpgeom's own tables for nest=False, positions, HEALPix explicit/implicit files and "
             "interpolation (exact rational weighted mean)", NOTE + "PARTIAL: hpgeom geometry (ring/nest, angle_to_pixel, "
-            "interpolation neighbours/weights) and IEEE weighted means are trusted; known finding F55.", TECH, "6 C16"),
+            "interpolation neighbours/weights) and IEEE weighted means are trusted; known finding F55. API LEVEL (40 further "
+            "theorems): import / export as decision trees for every sentinel, round trips in both directions with their "
+            "exact provisos, explicit and implicit files, RING addressing through any inverse permutation pair.", TECH,
+            "6 C16 / AB.9"),
     'C18': ("Lean proof that the in-memory concatenation of files with pairwise disjoint valid sets is their union "
             "pixel for pixel for matched / finer / coarser input coverage, and that overlap checking raises iff two "
-            "inputs share a valid pixel (contribution_spec, cat_union, cat_overlap_raises_iff)",
-            NOTE + "in_memory=False (fitsio) cannot run here and is not claimed; known finding F50.", TECH, "6 C18"),
+            "inputs share a valid pixel (contribution_spec, cat_union, cat_overlap_raises_iff); API LEVEL (17 further "
+            "theorems): apiCat as a decision list with exact errors, the value for ANY inputs (fold in list order), the "
+            "union theorem for disjoint maps read back through apiRead, last-wins / or semantics for overlapping inputs, "
+            "cat then read at the driver",
+            NOTE + "in_memory=False (fitsio) cannot run here and is not claimed; known finding F50 (NOT mirrored by the "
+            "model: carved out of the union theorem as the decidable predicate inF50).", TECH, "6 C18 / AB.9"),
     'C19': ("Lean proof that degrade-on-read of a written file equals reading (fully or by any pixel request) and "
             "degrading in memory: same rejections, same values, same coverage, weighted form included (dor_eq, "
             "dor_full, dorW_spec); API LEVEL (31 theorems): apiDegradeOnRead agrees with read-then-apiDegrade for every "
